@@ -171,6 +171,32 @@ def rule_finder_predicate(ck: Check, repo: Repo, rid: str = "R6") -> None:
                         f"contains_reuse_info returns `{txt}`; annotate can write such a header (e.g. --contributor alone) but"
                         f" _find_first_spdx_comment will not find it again: every further run stacks a new header", repo.loc(fn))
             break
+    # the predicate is TOTAL: no shortcut decides a text before it was parsed (a marker pre-test overlooks a notice
+    # style the reader knows, e.g. a bare '©' line) - decided as a table: False only when the parser fails
+    from ..tab import Hooks, tabulate, show_valuation
+    PERR = "raise[ExpressionError]@extract_reuse_info(text)"
+
+    class HP(Hooks):
+        def raises(self, text, call, it):
+            return ["ExpressionError"] if ast.unparse(call.func) == "extract_reuse_info" else []
+
+    seen_cells = set()
+    for d, leaf, _ in tabulate(fn, HP(), params=["text"]):
+        failed = any(k.startswith("raise[") and v for k, v in d.items())
+        other = {k: v for k, v in d.items() if not k.startswith("raise[")}
+        cell = (failed, tuple(sorted(other.items())), leaf.outcome[:2])
+        if cell in seen_cells:
+            continue
+        seen_cells.add(cell)
+        r.instance("predicate-path:" + show_valuation(d), {"valuation": show_valuation(d), "outcome": leaf.outcome[:2]})
+        if other:
+            free = [k.lstrip("?") for k in other]
+            r.violation(q, f"the finder predicate depends on {free[0]!r}",
+                        f"[{show_valuation(d)}] -> {leaf.outcome[:2]}: whether a block is a REUSE header must be decided by parsing"
+                        f" it and nothing else; a pre-test on the raw text disagrees with the reader for some notice spelling, the"
+                        f" tool then does not find the header it wrote and stacks a second one", repo.loc(fn), {"valuation": d})
+        elif failed and leaf.outcome[:2] != ("return", "False"):
+            r.violation(q, "an unparseable block is not treated as 'no header'", f"{leaf.outcome[:2]}", repo.loc(fn))
     ff = repo.func("reuse.header._find_first_spdx_comment")
     if "if contains_reuse_info(comment):" not in ast.unparse(ff):
         r.violation("reuse.header._find_first_spdx_comment", "finder predicate", "the finder must use contains_reuse_info(comment)", repo.loc(ff))
